@@ -12,11 +12,21 @@ CLAIMED = {
             "Every S1 crossing index of every catalogue base gets a fault of every kind/duration (exhaustive over that finite space), plus a seeded swarm of random problems/options/knobs with phase-biased fault placement and the intrinsic blow-up/discontinuity/stiff cases; oracles: no panic, no hang within 5e6 ticks, no Success with non-finite values from an error-controlled method, every accepted step seen on the events seam is among the returned samples.",
             "Trusted: the simulator (SimIVP fault plan, tick watchdog); faults only at the RHS; a sampled search, not a proof.",
             "DESIGN.md §5 C04"),
+    "C05": ("exploration",
+            "deterministic simulation: requested times placed against the pilot step grid, early stops injected (budget / terminal event / persistent RHS fault); executable t_eval reference model + dense on/off twin",
+            "Seeded swarm over placements of requested times relative to the accepted-step grid (inside, on a boundary, boundary +-1e-13..1e-11, x0, xend, many/none per step, duplicates), all methods, both directions, tiny spans, each run complete or stopped early by exactly one injected cause (step budget, terminal event inside a step holding requested times, persistent non-finite RHS from a chosen crossing); plus fixed boundary sweeps with budgets 1..9. Oracles: reported times == reference model bitwise; each value == the dense interpolant of the same run within tau_I+4e-12*F; t/y bitwise independent of dense_output.",
+            "Accuracy against the exact solution is NOT decided (pure numerics). Stopping point read from observables (xend / terminal event time / dense span end); 1e-12 window at the stopping point as documented by the handler.",
+            "DESIGN.md §5 C05"),
     "C10": ("fault_enumeration",
             "deterministic simulation: terminal event = cancellation at a scheduler-placed instant (every step x 7 fractions x occurrence 1/2, + seeded swarm); oracle = bit-identical prefix of the un-cancelled twin run",
             "The terminal root is placed in EVERY accepted step of every catalogue base at 7 fractions (incl. 1e-9 from either boundary), as first and as second occurrence, with earlier/later non-terminal roots in the same step, with/without t_eval and dense output, both directions; plus a seeded swarm (1-4 event functions of four kinds, direction filters, scales, counts 1-3, roots on boundaries). Each case runs the terminal run and its twin with the flags cleared: status, final sample == event point bitwise, earlier samples and per-function events == the twin's prefix bitwise, nothing beyond t*, dense span covers t*.",
             "Trusted: the twin run defines the reference; samples/events within root-finder accuracy (4e-12) of t* may be present or absent; ties between terminal functions accepted.",
             "DESIGN.md §5 C10"),
+    "C11": ("fault_enumeration",
+            "deterministic simulation: step budget = crash after N steps for every N (bitwise prefix of the un-budgeted twin); max_step/first_step as invariants over the recorded seam log",
+            "Every budget N = 1..nstep+2 of every catalogue base (plain and with t_eval+events+dense, both directions), plus a seeded swarm of budgets, max_step (inf, > span, exact divisors, tiny) and first_step values, low-level (exact h, complete RHS log) and high-level. Oracles: nstep <= N+1; N >= unbudgeted nstep changes nothing; otherwise identical or NeedLargerNMax with bitwise prefixes of t, y, t_events, y_events; every accepted |h| <= max_step (x1.01 final step); every RHS abscissa within max_step of the current point (covers hinit); first trial step reaches exactly x0+first_step; an accepted first trial step has length first_step exactly; RK4 steps all equal first_step.",
+            "Trusted: twin run as reference; per-method RHS-call count of one attempt for the 'first step accepted' clause; delta_t slack on reconstructed times.",
+            "DESIGN.md §5 C11"),
     "C19": ("fault_enumeration",
             "deterministic simulation: simulator-owned SolOut returns Interrupt/ModifiedSolution at every callback index (and all ordered pairs) + seeded swarm; protocol reference model + bitwise twin runs",
             "For every catalogue base the cancellation (Interrupt) and the in-flight mutation (ModifiedSolution: identity, x2, perturbed) are delivered at EVERY callback index, plus all ordered pairs on short runs, plus a seeded swarm of 0-4-action plans over random problems/knobs/options. Oracles: an executable protocol model (first call, contiguity, direction, interpolant bounds and end-point values, ending at xend), no seam crossing after Interrupt, next crossing after ModifiedSolution is ode(x, written state) (BDF: then jac), identity plan bitwise equals the unmodified twin, power-of-two scaling on linear homogeneous problems scales everything that follows bitwise (Radau: within tolerance).",
